@@ -7,6 +7,7 @@ set -e
 V="$(cd "$(dirname "$0")/.." && pwd)"
 cd "$V"
 export PYTHONPATH="${YP_REPO:-/repo}" PYTHONHASHSEED=0
+mkdir -p coq/Gen coq/Spec coq/Proofs coq/Properties coq/Model build
 /venv/bin/python harness/tables.py
 tools/mkproject.sh
 if [ "$1" = "models-only" ]; then
